@@ -109,6 +109,30 @@ def run_client_id_header(prog, allowlist):
     return f, [Path(s, rv) for (s, rv) in res], it.steps
 
 
+def run_ctor(prog):
+    """WebServer::new with the allow-list argument None / Some(set): what ends up in ServerState"""
+    cands = [fn for n, fn in prog.funcs.items() if n.endswith('>::new') and 'WebServer' in fn.ret]
+    if len(cands) != 1:
+        raise ms.Unsupported('WebServer::new: %d candidates' % len(cands))
+    f = cands[0]
+    out = []
+    for arg in ('None', 'Some'):
+        al = Agg('Option', 'None', 0, []) if arg == 'None' else Agg('Option', 'Some', 1, [Opaque('HashSet')])
+        it = Interp(prog)
+        st = State()
+        st.pending = None
+        st.labels = []
+        for (s, rv) in it.run_function(f, [Opaque('ServerConfig'), al, Opaque('Storage')], st):
+            stored = None
+            try:
+                ss = rv.fields[0].v.inner.v
+                stored = ss.fields[1].v.variant
+            except Exception:
+                raise ms.Unsupported('WebServer::new result shape %r' % (rv,))
+            out.append({'arg': arg, 'stored': stored, 'labels': list(s.labels)})
+    return out
+
+
 def describe(p):
     r = p.result
     if p.outcome != 'return':
